@@ -78,6 +78,27 @@ def exc_is(cls, target):
 # obligations and per-path context
 
 
+_hq_cache = {}
+
+
+def has_quantifier(e):
+    if not is_z3(e):
+        return False
+    todo = [e]
+    seen = set()
+    while todo:
+        x = todo.pop()
+        k = x.get_id()
+        if k in seen:
+            continue
+        seen.add(k)
+        if z3.is_quantifier(x):
+            return True
+        if z3.is_app(x):
+            todo.extend(x.children())
+    return False
+
+
 class Obligation:
     __slots__ = ("oid", "kind", "assumptions", "goal", "where", "note", "path", "values", "inputs")
 
@@ -114,10 +135,12 @@ class PathCtx:
     # program point gets the same symbol on every path sharing the prefix
     def fresh(self, prefix, sort):
         n = next(self.names)
-        if sort == "int":
-            return z3.Int(f"{prefix}!{n}")
-        if sort == "bool":
-            return z3.Bool(f"{prefix}!{n}")
+        if isinstance(sort, str):
+            if sort == "int":
+                return z3.Int(f"{prefix}!{n}")
+            if sort == "bool":
+                return z3.Bool(f"{prefix}!{n}")
+            raise ValueError(sort)
         return z3.Const(f"{prefix}!{n}", sort)
 
     def recording(self):
@@ -129,7 +152,10 @@ class PathCtx:
         if c is False:
             raise PathEnd()
         self.pc.append(c)
-        self.solver.add(c)
+        # the feasibility solver sees only quantifier-free facts (over-approximates
+        # feasibility: sound, and keeps branching cheap); obligations carry everything
+        if not has_quantifier(c):
+            self.solver.add(c)
 
     def feasible(self, c):
         self.stats["feas_checks"] += 1
@@ -323,6 +349,23 @@ class Interp:
 
     def test(self, v):
         return self.decide(self.truth(v))
+
+    def check_raise(self, cond, exc, node, implicit=None):
+        """raise `exc` iff cond.  Inside a pure element expression (comprehension body
+        evaluated for an arbitrary element) no exception may occur: the negated
+        condition becomes an obligation and is then assumed for that element."""
+        cond = simp(cond)
+        if cond is False:
+            return
+        if self.pure_depth:
+            if cond is True:
+                raise Unsupported(f"{exc} certain inside an element expression")
+            self.p.oblige(self.oid(node, f"element_no_{exc}"), "no_raise_in_element", z3.Not(cond), self.where(node),
+                          f"no {exc} ({implicit}) while evaluating the element expression for any element")
+            self.p.assume(z3.Not(cond))
+            return
+        if self.decide(cond):
+            self.raise_(exc, node, implicit=implicit)
 
     def raise_(self, cls, node, args=(), implicit=None):
         e = PyRaise(cls, args, node, implicit)
@@ -539,6 +582,9 @@ class Interp:
     # ---- loops ------------------------------------------------------------
     def st_For(self, st, env):
         it = self.eval(st.iter, env)
+        r = self.s.hook("summarize_loop", self, st, env, it)
+        if r is not NotImplemented:
+            return
         plan = self.iter_plan(it)
         if plan[0] == "concrete":
             broke = False
@@ -554,6 +600,8 @@ class Interp:
             if not broke:
                 self.exec_block(st.orelse, env)
             return
+        if plan[0] == "abstract":
+            return self.abstract_loop(st, env, plan[1])
         _, n, elem = plan[0], plan[1], plan[2]
         self.symbolic_loop(st, env, n=n, elem=elem)
 
@@ -621,6 +669,38 @@ class Interp:
         else:
             if n is not None:
                 self.p.assume(k == n)
+            self.exec_block(st.orelse, env)
+
+    def abstract_loop(self, st, env, coll):
+        """loop over a collection known only through a membership predicate (dict items,
+        all simulators, ...): iteration order and count are arbitrary, so the invariant must
+        be index-free.  Rule: Inv on entry; havoc; assume Inv; either one more iteration with
+        an ARBITRARY member (then Inv again) or exit with Inv."""
+        inv = self.s.loop_invariant(self.frame, st)
+        if inv is None:
+            raise Unsupported(f"loop over an abstract collection without invariant at line {st.lineno} ({self.frame.qualname})")
+        lab = self.oid(st)
+        self.p.oblige(lab + ":inv_entry", "loop_inv_entry", inv(None, LoopView(self, env)), self.where(st),
+                      "invariant holds on entry")
+        self.s.havoc_loop(self, st, env, inv)
+        self.p.assume(inv(None, LoopView(self, env)))
+        more = self.p.fresh("iterate", "bool")
+        if self.decide(more):
+            self.assign(st.target, coll.arbitrary(self), env)
+            try:
+                self.exec_block(st.body, env)
+            except _Continue:
+                pass
+            except _Break:
+                return
+            self.p.oblige(lab + ":inv_preserved", "loop_inv_preserved", inv(None, LoopView(self, env)), self.where(st),
+                          "invariant preserved by the body (for an arbitrary element)")
+            ip = self.s.loop_iter_post(self.frame, st)
+            if ip is not None:
+                self.p.oblige(lab + ":iteration_effect", "loop_iteration_effect", ip(LoopView(self, env)), self.where(st),
+                              "effect of one iteration on its (arbitrary) element")
+            raise PathEnd()
+        else:
             self.exec_block(st.orelse, env)
 
     def iter_plan(self, it):
@@ -709,6 +789,8 @@ class Interp:
         r = self.s.hook("dict_display", self, e, env)
         if r is not NotImplemented:
             return r
+        if not e.keys:
+            return {}
         raise Unsupported("dict display")
 
     def ex_Set(self, e, env):
@@ -725,9 +807,38 @@ class Interp:
         return Opaque("fstring", mentions)
 
     def ex_IfExp(self, e, env):
-        if self.test(self.eval(e.test, env)):
+        c = simp(self.truth(self.eval(e.test, env)))
+        if self.pure_depth and not isinstance(c, bool):
+            # element expression: no forking -- evaluate both arms under their condition, merge
+            vals = []
+            for cond, arm in ((c, e.body), (z3.Not(c), e.orelse)):
+                self.p.solver.push()
+                saved = len(self.p.pc)
+                try:
+                    self.p.assume(cond)
+                    vals.append(self.eval(arm, env))
+                finally:
+                    del self.p.pc[saved:]
+                    self.p.solver.pop()
+            return self.merge(c, vals[0], vals[1])
+        if self.decide(c):
             return self.eval(e.body, env)
         return self.eval(e.orelse, env)
+
+    def merge(self, c, a, b):
+        """If(c, a, b) on interpreter values"""
+        r = self.s.hook("merge", self, c, a, b)
+        if r is not NotImplemented:
+            return r
+        if a is b:
+            return a
+        if (is_int_like(a) or is_bool_like(a)) and (is_int_like(b) or is_bool_like(b)):
+            if is_bool_like(a) and is_bool_like(b):
+                return z3.If(c, a if is_z3(a) else z3.BoolVal(a), b if is_z3(b) else z3.BoolVal(b))
+            return z3.If(c, _toint(a), _toint(b))
+        if is_z3(a) and is_z3(b) and a.sort() == b.sort():
+            return z3.If(c, a, b)
+        raise Unsupported(f"cannot merge {a!r} and {b!r} in a conditional element expression")
 
     def ex_Lambda(self, e, env):
         return Func(e, self.frame.func.module, f"{self.frame.qualname}.<lambda>", closure=env)
@@ -753,6 +864,19 @@ class Interp:
                 if (not is_and) and t:
                     return v
                 continue
+            if self.pure_depth:
+                # element expression / filter: no forking; the result is used for its truth value:
+                # evaluate the rest under the condition that makes it be evaluated at all
+                rest_e = ast.BoolOp(op=e.op, values=e.values[i + 1:]) if len(e.values) - i - 1 > 1 else e.values[i + 1]
+                self.p.solver.push()
+                saved = len(self.p.pc)
+                try:
+                    self.p.assume(t if is_and else z3.Not(t))
+                    rv = self.truth(self.eval(rest_e, env))
+                finally:
+                    del self.p.pc[saved:]
+                    self.p.solver.pop()
+                return (S.And if is_and else S.Or)(t, rv)
             # symbolic: if the remaining operands are pure, build a formula,
             # otherwise fork
             rest = e.values[i + 1:]
